@@ -179,4 +179,18 @@ def procCase (inp impl : String) : CaseOut :=
     | _, _ => bad "script/hist"
   | _, _ => bad "fields"
 
+/-- stream mwopts (C13): `WithMiddleware(common...)` + `WithMiddleware(own)` for several actors built from
+    one shared slice: each actor runs common ++ [its own], in that order (HW.Mw.run_apply). -/
+def mwOptsCase (inp impl : String) : CaseOut :=
+  let ws := words inp
+  match kvNat ws "common", kvNat ws "actors" with
+  | some nc, some na =>
+    let chain (a : Nat) : String :=
+      String.intercalate "." ((List.range nc).map (fun i => s!"c{i}") ++ [s!"own{a}"])
+    let want := String.intercalate ";" ((List.range na).map chain)
+    { model := want,
+      spec := if impl = want then "ok" else s!"FAIL:C13 an actor does not run the middleware chain given at its spawn: [{impl}] expected [{want}]",
+      tags := [s!"common{nc}", s!"actors{na}"], nontrivial := na ≥ 2 }
+  | _, _ => bad "fields"
+
 end Driver
